@@ -135,6 +135,7 @@ type PkgSpec struct {
 	Lemmas  []*Lemma
 	Axioms  []*Axiom
 	Ghosts  []SpecParam // package-level ghost maps "name: K -> V [owned|once]"
+	Gsteps  []*Clause   // two-state clauses every single action must satisfy (not transitive: proved, never assumed)
 	Ginvs   []*Clause   // global invariants: hold whenever no critical section of the objects involved is in progress; also at atomic operations
 	Gtrans  []*Clause   // two-state guarantees every atomic action satisfies (rely of the others)
 	Assumes []string    // free-text assumptions recorded for the evidence
@@ -231,15 +232,19 @@ func ParseSpecFile(path, pkgPath string, ps *PkgSpec) error {
 			lm.Pkg = pkgPath
 			lm.C.Line, lm.C.File = l.n, path
 			ps.Lemmas = append(ps.Lemmas, lm)
-		case "ginv", "gtrans":
+		case "ginv", "gtrans", "gstep":
 			c, err := mkClause(l.n, rest)
 			if err != nil {
 				return err
 			}
-			if kw == "ginv" {
+			switch kw {
+			case "ginv":
 				ps.Ginvs = append(ps.Ginvs, c)
-			} else {
+			case "gtrans":
 				ps.Gtrans = append(ps.Gtrans, c)
+			default:
+				// guarantee about every single atomic action of this package; never assumed about others' steps
+				ps.Gsteps = append(ps.Gsteps, c)
 			}
 		case "axiom":
 			c, err := mkClause(l.n, rest)
